@@ -230,6 +230,14 @@ func (s *OperationProcessor) applyResolutionOptions(uniqueSuffix string, publish
 			continue
 		}
 
+		if op.UniqueSuffix == "" {
+			// file it under the DID that is being resolved: the operation applier checks the request against that suffix
+			// (the create operation of another DID, handed over without a suffix, would otherwise define this DID)
+			filed := *op
+			filed.UniqueSuffix = uniqueSuffix
+			op = &filed
+		}
+
 		if op.CanonicalReference == "" {
 			unpublished = append(unpublished, op)
 		} else if _, ok := canonicalIds[op.CanonicalReference]; !ok {
